@@ -24,7 +24,7 @@ import random
 
 from checks import common
 
-CLAUSES = ('Facts', 'OutsideTokens.out', 'OutsideTokens.in', 'Comments.lost', 'Comments.dup', 'OutsideLines',
+CLAUSES = ('Facts', 'OutsideTokens.out', 'OutsideTokens.in', 'OutsideTokens.moved', 'Comments.lost', 'Comments.dup', 'OutsideLines',
            'BlankLines')
 VARIANTS = (1, 7, 1, 7, 4, 1, 7, 3)  # biased to comments (1: trailing + own-line comments, 7: random mix of three)
 N_JOIN = 3
@@ -175,7 +175,7 @@ def run(ctx):
     # these modes, and 2 statements with the line-number forms of the option added
     for cfg in (('TokenMC',) if ctx.quick else ('TokenMC_thorough', 'TokenMC_ints')):
         _retry(lambda: ctx.model('TokenMC', cfg, required=actions, heap='3g'))
-    n_hist, n_steps = (420, 8) if ctx.quick else (4200, 10)
+    n_hist, n_steps = (420, 8) if ctx.quick else (3600, 10)
     specs = history_specs(ctx, n_hist, n_steps)
     wave = 560  # histories generated and validated together (bounds memory in the thorough tier)
     collect(ctx, validate_all(ctx, generated_cases(ctx), par=12), samples=2)  # (tiny streams: JVM start dominates)
@@ -184,7 +184,7 @@ def run(ctx):
     ctx.extra['histories'] = n_hist
     ctx.extra['steps_per_history'] = n_steps
     ctx.require_clauses(['OutsideTokens.out', 'OutsideTokens.in', 'Comments.lost', 'Comments.dup', 'OutsideLines',
-                         'BlankLines', 'RefEdit.agree'])
+                         'BlankLines', 'RefEdit.agree', 'OutsideTokens.moved'])
 
 
 class _FixedChoice:
@@ -229,6 +229,9 @@ def run_step(rec, tt, tid: int, pre_src: str, pl: dict, extra=None):
             plan.length = len(node.body) - plan.lo
         elif plan.field == '_all' and plan.kind == 'Compare':
             plan.length = 1 + len(node.comparators)
+        elif plan.field == '_all' and plan.kind == 'arguments':
+            plan.length = len(node.posonlyargs) + len(node.args) + len(node.kwonlyargs) + bool(node.vararg) + \
+                bool(node.kwarg)
         elif plan.field == '_all':
             plan.length = len(node.keys)
         elif plan.field in ('_args', '_bases'):
@@ -264,12 +267,21 @@ def single_step_batch(pre_src: str, pl: dict, gen=None):
 # ----------------------------------------------------------------------------------------------------------------------
 # (G) the case table of the reference editor (spec/TokenGen.tla), concretised and replayed into pfst
 
-def _line_text(x):
+def _line_text(x, expr=False):
+    """Concrete text of an abstract line of the table: comment `# c<id>`, blank, lone line continuation, or the
+    statements `s<i> = <i>` of the line joined by `; ` (expression contexts: elements `e<i>,` joined by a blank) with
+    the optional line comment."""
     if x['k'] == 'blank':
         return ''
+    if x['k'] == 'cont':
+        return '\\'
     if x['k'] == 'cmt':
         return f"# c{x['id']}"
-    return ('new = 0' if x['id'] == 9 else f"s{x['id']} = {x['id']}") + (f"  # c{x['tr']}" if x['tr'] else '')
+    if expr:
+        code = ' '.join(('new' if i == 9 else f'e{i}') + ',' for i in x['ids'])
+    else:
+        code = '; '.join('new = 0' if i == 9 else f's{i} = {i}' for i in x['ids'])
+    return code + (f"  # c{x['tr']}" if x['tr'] else '')
 
 
 # block contexts the abstract statement list of a table row is embedded in: (header lines, indentation, path of the
@@ -285,7 +297,7 @@ CONTEXTS = [
     (['class C:  # cc'], '    ', [['body', 0]], 'body', ['z = 0']),
     (['while x:', '    if y: a  # ac', '    else:'], '        ', [['body', 0], ['body', 0]], 'orelse', ['    w = 1  # wc']),
     (['match x:', '    case 1:  # kc'], '        ', [['body', 0], ['cases', 0]], 'body', ['    case _: pass']),
-    (['with a as b:  # hc'], '\t', [['body', 0]], 'body', ['z = 0']),
+    (['with a as b:  # hc'], '   ', [['body', 0]], 'body', ['z = 0']),
     (['try: a', 'except E:  # xc'], '  ', [['body', 0], ['handlers', 0]], 'body', ['finally: c']),
 ]
 
@@ -301,9 +313,29 @@ EXPR_CONTEXTS = [
 ]
 
 
-def _norm(t, expr):
-    t = t.strip()
-    return ' '.join(t.replace(',', ' ').split()) if expr else t
+def _items(texts, expr, only_comments=False):
+    """The text as a sequence of items - statements (elements) and comments - without layout: empty lines and lone line
+    continuations are dropped, a `;`-joined line (expression contexts: a line of several elements) gives one item per
+    statement, a line comment is an item of its own.  Where pfst breaks or joins lines, and whether an unselected line
+    comment ends up behind its neighbour or on a line of its own, is not the reference editor's business (the clauses
+    of TokenLaws judge that); RefEdit.agree says which statements and comments exist, in which order."""
+    out = []
+    for t in texts:
+        code, h, com = t.partition('#')
+        parts = [' '.join(c.split()) for c in code.split(',' if expr else ';')]
+        if not only_comments:
+            out += [c for c in parts if c and c != '\\']
+        if h:
+            out.append('# ' + com.strip())
+    return out
+
+
+def _option_part(mode, sp, p0):
+    if mode.startswith('up'):
+        return p0 - int(mode[2:])
+    if mode.startswith('down'):
+        return p0 + int(mode[4:])
+    return mode + (sp['sg'] + str(sp['n']) if sp['n'] else '')
 
 
 def _gen_shard(args):
@@ -317,29 +349,24 @@ def _gen_shard(args):
         expr = row['ctx'] >= len(CONTEXTS)
         head, ind, path, field, foot = (EXPR_CONTEXTS[row['ctx'] - len(CONTEXTS)] if expr else CONTEXTS[row['ctx']])
 
-        def one(x):
-            t = _line_text(x)
-            if expr and x['k'] == 'stmt':  # `s1 = 1  # c` -> `e1,  # c`
-                code, _, com = t.partition('  #')
-                t = ('new' if x['id'] == 9 else f"e{x['id']}") + ',' + ('  #' + com if com else '')
-            return ind + t if t else ''
-
         def text(lines):
-            return head + [one(x) for x in lines] + foot
+            return head + [ind + t if t else '' for t in (_line_text(x, expr) for x in lines)] + foot
 
         pre_src = '\n'.join(text(row['pre'])) + '\n'
         # line-number forms of the option: relative to the line of the targeted statement in the concrete text
-        p0 = len(head) + next((k for k, x in enumerate(row['pre']) if x['k'] == 'stmt' and x['id'] == q['i']), 0)
-        lead = p0 - int(q['lm'][2:]) if q['lm'].startswith('up') else q['lm']
-        trail = p0 + int(q['tm'][4:]) if q['tm'].startswith('down') else q['tm']
+        p0 = len(head) + next((k for k, x in enumerate(row['pre']) if x['k'] == 'stmt' and q['i'] in x['ids']), 0)
+        sp = row['sp']
+        trivia = (_option_part(q['lm'], sp['lead'], p0), _option_part(q['tm'], sp['trail'], p0))
         pl = {'path': path, 'kind': '', 'field': field, 'start': None, 'stop': None, 'idx': None,
               'et': 'expr' if expr else 'stmt', 'srcs': [], 'codeform': 'src', 'corrupt': None, 'view': None,
-              'opts': {'trivia': (lead, trail)}}
+              'opts': {'trivia': trivia}}
         new = 'new' if expr else 'new = 0'
         if q['op'] == 'insert':
-            # (expression sequences: without trivia, see known finding F-C04-expr-insert-overwrites-neighbour-trivia)
+            # expression sequences: leading trivia selected (an insertion must not take it), trailing trivia not
+            # (known finding F-C04-expr-insert-overwrites-neighbour-trivia, trailing half)
             pl.update(form='slice', start=q['i'] - 1, stop=q['i'] - 1, srcs=[new], op='put_slice' if expr else 'insert',
-                      opts={'trivia': (False, False)} if expr else {})
+                      opts={'trivia': ('all' + (sp['lead']['sg'] + str(sp['lead']['n']) if sp['lead']['n'] else ''),
+                                       'none')} if expr else {})
         elif expr:
             pl.update(form='slice', start=q['i'] - 1, stop=q['i'], srcs=[new] if q['op'] == 'replace' else [],
                       op='put_slice')
@@ -347,29 +374,20 @@ def _gen_shard(args):
             pl.update(form='del', idx=q['i'] - 1, op='remove')
         else:
             pl.update(form='one', idx=q['i'] - 1, srcs=[new], op='replace')
-        # lines are compared without their indentation (where pfst leaves an unselected line comment of a removed
-        # statement - column 0 or block indentation - is not the reference editor's business); in expression
-        # sequences also without separators, and for an insertion there only the comment lines (the new element may
-        # share the line of its neighbour)
+        # for an insertion into an expression sequence only the comments are compared (order of the new element and
+        # the separators around it are the container law's business, C03)
         only_comments = expr and q['op'] == 'insert'
 
         def lines_of(texts):
-            ts = [_norm(t, expr) for t in texts]
-            return [tt.line(t) for t in ts if not only_comments or t.startswith('#') or not t]
+            return [tt.line(t) for t in _items(texts, expr, only_comments)]
 
         exp = list(row['expect'])
-        if expr and q['op'] == 'replace':
-            # an unselected line comment of a replaced *expression* element stays on the line, behind the new element
-            for k in range(len(exp) - 1):
-                if exp[k]['k'] == 'stmt' and exp[k]['id'] == 9 and exp[k + 1]['k'] == 'cmt' and exp[k + 1]['id'] >= 100:
-                    exp[k:k + 2] = [dict(exp[k], tr=exp[k + 1]['id'])]
-                    break
-        g = {'op': q['op'], 'expect': lines_of(text(exp)), 'newline': tt.line(_norm(new if expr else 'new = 0', expr))}
+        g = {'op': q['op'], 'expect': lines_of(text(exp)), 'newline': tt.line(new)}
         tr, script = run_step(rec, tt, tid, pre_src, pl,
                               extra=lambda post_src: {'g': dict(g, got=lines_of(post_src.split('\n')))})
         scripts[tid] = {'driver': 'c04_gen', 'progs': [], 'variant': -2, 'seed': 0, 'nsteps': 1, 'script': [script],
                         'gen': {'op': q['op'], 'expr': expr, 'only_comments': only_comments,
-                                'expect': [_norm(t, expr) for t in text(exp)], 'new': _norm(new, expr)}}
+                                'expect': text(exp), 'new': new}}
         traces.append(tr)
     return dict(rec.tab.dump(), **tt.dump(), traces=traces), scripts
 
@@ -377,10 +395,43 @@ def _gen_shard(args):
 def _gen_extra(tt, gen):
     """The `g` record of a generated case from its stored description (replays)."""
     def lines_of(texts):
-        ts = [_norm(t, gen['expr']) for t in texts]
-        return [tt.line(t) for t in ts if not gen['only_comments'] or t.startswith('#') or not t]
+        return [tt.line(t) for t in _items(texts, gen['expr'], gen['only_comments'])]
     g = {'op': gen['op'], 'expect': lines_of(gen['expect']), 'newline': tt.line(gen['new'])}
     return lambda post_src: {'g': dict(g, got=lines_of(post_src.split('\n')))}
+
+
+def _elif_source(form, ind):
+    """The source of a case of the `elif` table: the block that the edit moves (re-indents) holds a plain expression
+    string, the docstring of a nested def, an assigned string and a string in a nested block, all multi-line."""
+    i1, i2, i3 = ' ' * ind, ' ' * (2 * ind), ' ' * (3 * ind)
+    block = ['"""top', 'cont"""', 'def g():', i1 + '"""doc', i1 + 'cont"""', i1 + 's = """as', 'signed"""', i1 + 'return s',
+             'if c:  # cc', i1 + '"""nested', i1 + 'cont"""', 'y = 2  # cy']
+    lines = ['if a:', i1 + 'x = 1  # cx']
+    if form == 'elif':
+        lines += ['elif b:  # ec'] + [(i1 + t if t != 'signed"""' else t) for t in block]
+    else:
+        lines += ['else:  # lc', i1 + 'q = 0', i1 + 'if b:  # ec'] + [(i2 + t if t != 'signed"""' else t) for t in block]
+    return '\n'.join(lines + ['z = 0  # cz']) + '\n'
+
+
+def _elif_shard(cases):
+    from harness import edits, c04_tokens
+    rec = edits.Recorder()
+    tt = c04_tokens.TokTables()
+    traces, scripts = [], {}
+    for tid, case in cases:
+        d = {'True': True, 'False': False, 'strict': 'strict'}[case['docstr']]
+        pl = {'path': [['body', 0]], 'kind': 'If', 'field': 'orelse', 'start': None, 'stop': None, 'idx': None, 'et': 'stmt',
+              'srcs': [], 'codeform': 'src', 'corrupt': None, 'view': None, 'opts': {'docstr': d}}
+        if case['op'] == 'delete0':
+            pl.update(form='del', idx=0, op='remove')
+        else:
+            k = int(case['op'][-1])
+            pl.update(form='slice', start=k, stop=k, srcs=['new = 0'], op='put_slice')
+        tr, script = run_step(rec, tt, tid, _elif_source(case['form'], case['ind']), pl)
+        scripts[tid] = {'driver': 'c04_elif', 'progs': [], 'variant': -3, 'seed': 0, 'nsteps': 1, 'script': [script]}
+        traces.append(tr)
+    return dict(rec.tab.dump(), **tt.dump(), traces=traces), scripts
 
 
 def generated_cases(ctx, nproc=14):
@@ -396,18 +447,24 @@ def generated_cases(ctx, nproc=14):
         raise common.Machinery(str(e)) from e
     ctx.models.append({'module': 'TokenGen', 'cfg': cfg, 'kind': 'case-table', 'wall_s': r['wall_s']})
     with open(out) as f:
-        rows = json.load(f)
+        table = json.load(f)
+    rows, spaces = table['rows'], table['spaces']
     ctx.extra['case_table_rows'] = len(rows)
     rng = random.Random(ctx.seed + 77)  # seed-dependent sample of the table (quick: NStmt = 2, thorough: NStmt = 3)
-    rows = rng.sample(rows, min(len(rows), 3000 if ctx.quick else 12000))
-    for k, row in enumerate(rows):  # each sampled row is replayed inside one block context (all contexts in turn)
-        row['ctx'] = k % (len(CONTEXTS) + len(EXPR_CONTEXTS))
+    rows = rng.sample(rows, min(len(rows), 3000 if ctx.quick else 10000))
+    nctx = len(CONTEXTS) + len(EXPR_CONTEXTS)
+    for k, row in enumerate(rows):  # each sampled row is replayed inside one context with one pair of space counts
+        row['ctx'] = k % nctx       # (all contexts and all leading x trailing '+N' / '-N' counts in turn)
+        row['sp'] = spaces[(k // nctx) % len(spaces)]
+    ctx.extra['space_count_pairs'] = len(spaces)
     ctx.extra['generated_cases'] = len(rows)
     numbered = list(enumerate(rows, 1))
     nshards = max(1, min(12, len(numbered) // 200 or 1), len(numbered) // 1500)
     shards = [(k, numbered[k::nshards]) for k in range(nshards)]
+    ctx.extra['elif_docstr_cases'] = len(table['elifs'])
     with mp.get_context('fork').Pool(min(nproc, nshards)) as pool:
-        return pool.map(_gen_shard, shards)
+        res = pool.map(_gen_shard, shards)
+    return res + [_elif_shard([(900000 + k, c) for k, c in enumerate(table['elifs'], 1)])]
 
 
 def _run_gen(cfg, out):
@@ -423,6 +480,7 @@ def replay(ctx, path):
     import difflib
     with open(path) as f:
         rp = json.load(f)
+    ctx.seed = f'{ctx.seed}r'  # (a still failing replay is written next to, not over, the recorded replays)
     batch, scripts = single_step_batch(rp['pre_src'], rp['plan'], rp.get('gen'))
     val = [(batch, scripts, ctx.validate(batch, module='TokenTrace'))]
     collect(ctx, val)
